@@ -1688,6 +1688,48 @@ pub fn gen(tier: &str, seed: u64) -> Vec<String> {
         }
     }
 
+    // 3b. strings computed by `concat` (quote characters inside raw strings, empty strings, pieces that
+    // only together form a quoted string) bound to a variable and then read by every consumer that trims
+    // quotes a second time: another concat, unicode, push-msg, clipboard-set, a layer icon, a macro
+    // item, a key name. Two sites cooperate here (concat strips the delimiters, the consumer trims
+    // again); neither alone sees the one-character atom `"`. Exhaustive over 1-2 pieces x consumers.
+    {
+        const PIECES: &[&str] = &[
+            "r#\"\"\"#", "r#\"\"\"\"#", "r#\"a\"\"#", "r#\"\"a\"#", "\"\"", "\"a\"", "r#\"\"#", "a", "r#\"\"a\"\"#", "r#\" \"#",
+        ];
+        let consumers: &[&dyn Fn(&str) -> String] = &[
+            &|v| format!("(defvar w (concat {v} hello)) (defsrc a) (deflayer base (unicode $w))"),
+            &|v| format!("(defsrc a) (deflayer base (unicode {v}))"),
+            &|v| format!("(defsrc a) (deflayer base (push-msg {v}))"),
+            &|v| format!("(defsrc a) (deflayer base (clipboard-set {v}))"),
+            &|v| format!("(defsrc a) (deflayer (base icon {v}) a)"),
+            &|v| format!("(defsrc a) (deflayer base (macro {v}))"),
+            &|v| format!("(defsrc a) (deflayer base {v})"),
+            &|v| format!("(defsrc a) (deflayer base (concat {v}))"),
+            &|v| format!("(deftemplate t (x) (unicode (concat $x {v}))) (defsrc a) (deflayer base (t! t {v}))"),
+        ];
+        let mut vals: Vec<String> = vec![];
+        for a in PIECES {
+            vals.push((*a).to_string());
+            for b in PIECES {
+                vals.push(format!("{a} {b}"));
+            }
+        }
+        for (vi, v) in vals.iter().enumerate() {
+            for (ci, c) in consumers.iter().enumerate() {
+                if !thorough && vi >= PIECES.len() + 1 && (vi + ci) % 3 != (seed as usize) % 3 {
+                    continue;
+                }
+                let text = format!("(defvar dq (concat {v})) {}", c("$dq"));
+                push(&mut out, &mut r, &format!("quote:{vi}:{ci}"), &text, &[]);
+                if vi < PIECES.len() {
+                    // the piece written directly where the variable would stand
+                    push(&mut out, &mut r, &format!("quote:direct:{vi}:{ci}"), &c(v), &[]);
+                }
+            }
+        }
+    }
+
     // 4. front-end texts: exhaustive short token strings, random longer ones
     for t in fe_exhaustive(if thorough { 16 } else { 12 }, 3) {
         out.push(case_line('s', "fe:exh", &t, &[]));
